@@ -18,45 +18,45 @@ Definition elab_text (a b : pure) (t : option sexp) : option pure :=
   match t with Some s => elab (G2 a b) noparam s | None => None end.
 
 (* ------------------------------------------------------------------ Cast.il_exec *)
-Theorem cast_text_ok : forall target src x op t1 ib0 ic0 ib1 ic1 b,
-  elab_text x b (cast_text op target src t1 ib0 ic0 ib1 ic1) = Some (cast_il_exec target src x).
+Theorem cast_text_ok : forall target src x op t1 ib0 ic0 ib1 ic1 il0 v0 b,
+  elab_text x b (cast_text op target src t1 ib0 ic0 ib1 ic1 il0 v0) = Some (cast_il_exec target src (il0 && (0 <=? v0)%Z) x).
 Proof.
   intros. unfold cast_text, cast_il_exec, elab_text.
-  destruct (vt_sg target), (vt_sg src), (vt_w target); vm_compute; reflexivity.
+  destruct (vt_sg target), (vt_sg src), (vt_w src <? vt_w target)%N, (il0 && (0 <=? v0)%Z), (vt_w target); vm_compute; reflexivity.
 Qed.
 
 (* ------------------------------------------------------------------ BitOp.il_exec *)
-Theorem bitop_text_ok : forall op ta a b tself t1 ib0 ic0 ib1 ic1, In op bitop_ops ->
-  elab_text a b (bitop_text op tself ta t1 ib0 ic0 ib1 ic1) = Some (bitop_il_exec op ta a b).
+Theorem bitop_text_ok : forall op ta a b tself t1 ib0 ic0 ib1 ic1 il0 v0, In op bitop_ops ->
+  elab_text a b (bitop_text op tself ta t1 ib0 ic0 ib1 ic1 il0 v0) = Some (bitop_il_exec op ta a b).
 Proof.
-  intros op ta a b tself t1 ib0 ic0 ib1 ic1 Hin. unfold bitop_ops in Hin. cbn [In] in Hin.
+  intros op ta a b tself t1 ib0 ic0 ib1 ic1 il0 v0 Hin. unfold bitop_ops in Hin. cbn [In] in Hin.
   repeat (destruct Hin as [<- | Hin]); try contradiction; unfold bitop_text, bitop_il_exec, elab_text;
     destruct (vt_sg ta); vm_compute; reflexivity.
 Qed.
 (* an operator outside the enum: the Python raises *)
-Lemma bitop_text_other : forall op tself t0 t1 ib0 ic0 ib1 ic1, ~ In op bitop_ops -> bitop_text op tself t0 t1 ib0 ic0 ib1 ic1 = None.
+Lemma bitop_text_other : forall op tself t0 t1 ib0 ic0 ib1 ic1 il0 v0, ~ In op bitop_ops -> bitop_text op tself t0 t1 ib0 ic0 ib1 ic1 il0 v0 = None.
 Proof.
-  intros op tself t0 t1 ib0 ic0 ib1 ic1 H. unfold bitop_text, bitop_ops in *. cbn [In] in H.
+  intros op tself t0 t1 ib0 ic0 ib1 ic1 il0 v0 H. unfold bitop_text, bitop_ops in *. cbn [In] in H.
   repeat match goal with |- context [String.eqb op ?s] => destruct (String.eqb_spec op s) as [->|_]; [exfalso; apply H; tauto|] end.
   reflexivity.
 Qed.
 
 (* ------------------------------------------------------------------ CompareOp.il_exec *)
 Definition cmp_float (ta tb : vtype) : bool := vt_float ta && vt_float tb.
-Theorem compareop_text_ok : forall op ta tb a b tself ib0 ic0 ib1 ic1, In op compareop_ops ->
+Theorem compareop_text_ok : forall op ta tb a b tself ib0 ic0 ib1 ic1 il0 v0, In op compareop_ops ->
   cmp_float ta tb = false \/ op <> "!=" ->
-  elab_text a b (compareop_text op tself ta tb ib0 ic0 ib1 ic1) = Some (cmp_il_exec op ta tb a b).
+  elab_text a b (compareop_text op tself ta tb ib0 ic0 ib1 ic1 il0 v0) = Some (cmp_il_exec op ta tb a b).
 Proof.
-  intros op ta tb a b tself ib0 ic0 ib1 ic1 Hin Hne. unfold compareop_ops in Hin. cbn [In] in Hin. unfold cmp_float in Hne.
+  intros op ta tb a b tself ib0 ic0 ib1 ic1 il0 v0 Hin Hne. unfold compareop_ops in Hin. cbn [In] in Hin. unfold cmp_float in Hne.
   repeat (destruct Hin as [<- | Hin]); try contradiction; unfold compareop_text, cmp_il_exec, elab_text;
     destruct (vt_sg ta), (vt_sg tb), (vt_float ta), (vt_float tb); try (vm_compute; reflexivity);
     destruct Hne as [Hne | Hne]; try discriminate Hne; exfalso; apply Hne; reflexivity.
 Qed.
 (* the one text the reader of emitted bodies does not elaborate: `!=` on two floats is FINV(EQ(a, b)) *)
-Example compareop_text_float_ne : forall ta tb tself ib0 ic0 ib1 ic1, cmp_float ta tb = true ->
-  compareop_text "!=" tself ta tb ib0 ic0 ib1 ic1 = Some (SApp "FINV" [SApp "EQ" [SVar "$0"; SVar "$1"]]).
+Example compareop_text_float_ne : forall ta tb tself ib0 ic0 ib1 ic1 il0 v0, cmp_float ta tb = true ->
+  compareop_text "!=" tself ta tb ib0 ic0 ib1 ic1 il0 v0 = Some (SApp "FINV" [SApp "EQ" [SVar "$0"; SVar "$1"]]).
 Proof.
-  intros ta tb tself ib0 ic0 ib1 ic1 H. unfold cmp_float in H. apply andb_true_iff in H. destruct H as [H1 H2].
+  intros ta tb tself ib0 ic0 ib1 ic1 il0 v0 H. unfold cmp_float in H. apply andb_true_iff in H. destruct H as [H1 H2].
   unfold compareop_text. rewrite H1, H2. destruct (vt_sg ta || vt_sg tb); reflexivity.
 Qed.
 
@@ -64,11 +64,11 @@ Qed.
 Definition arith_ops : list (string * binop) := [("+", BAdd); ("-", BSub); ("*", BMul); ("/", BDiv); ("%", BMod)].
 Lemma arith_ops_cover : map fst arith_ops = arithmeticop_ops.
 Proof. reflexivity. Qed.
-Theorem arithmeticop_text_ok : forall op o ta tb a b tself ib0 ic0 ib1 ic1, In (op, o) arith_ops ->
+Theorem arithmeticop_text_ok : forall op o ta tb a b tself ib0 ic0 ib1 ic1 il0 v0, In (op, o) arith_ops ->
   cmp_float ta tb = false \/ op <> "%" ->
-  elab_text a b (arithmeticop_text op tself ta tb ib0 ic0 ib1 ic1) = Some (arith_il_exec o ta tb a b).
+  elab_text a b (arithmeticop_text op tself ta tb ib0 ic0 ib1 ic1 il0 v0) = Some (arith_il_exec o ta tb a b).
 Proof.
-  intros op o ta tb a b tself ib0 ic0 ib1 ic1 Hin Hne. unfold arith_ops in Hin. cbn [In] in Hin. unfold cmp_float in Hne.
+  intros op o ta tb a b tself ib0 ic0 ib1 ic1 il0 v0 Hin Hne. unfold arith_ops in Hin. cbn [In] in Hin. unfold cmp_float in Hne.
   repeat (destruct Hin as [Hin | Hin]; [injection Hin as <- <- |]); try contradiction;
     unfold arithmeticop_text, arith_il_exec, elab_text; destruct (vt_float ta), (vt_float tb); try (vm_compute; reflexivity);
     destruct Hne as [Hne | Hne]; try discriminate Hne; exfalso; apply Hne; reflexivity.
@@ -76,22 +76,22 @@ Qed.
 (* (the reader of emitted bodies knows no FMOD: `%` on two floats is emitted as FMOD(rmode, a, b)) *)
 
 (* ------------------------------------------------------------------ BooleanOp.il_exec *)
-Theorem booleanop_text_ok : forall op a b ib0 ic0 ib1 ic1 tself t0 t1, In op booleanop_ops ->
-  elab_text a b (booleanop_text op tself t0 t1 ib0 ic0 ib1 ic1) = Some (boolop_il_exec op (ib0 || ic0) (ib1 || ic1) a b).
+Theorem booleanop_text_ok : forall op a b ib0 ic0 ib1 ic1 il0 v0 tself t0 t1, In op booleanop_ops ->
+  elab_text a b (booleanop_text op tself t0 t1 ib0 ic0 ib1 ic1 il0 v0) = Some (boolop_il_exec op (ib0 || ic0) (ib1 || ic1) a b).
 Proof.
-  intros op a b ib0 ic0 ib1 ic1 tself t0 t1 Hin. unfold booleanop_ops in Hin. cbn [In] in Hin.
+  intros op a b ib0 ic0 ib1 ic1 il0 v0 tself t0 t1 Hin. unfold booleanop_ops in Hin. cbn [In] in Hin.
   repeat (destruct Hin as [<- | Hin]); try contradiction; unfold booleanop_text, boolop_il_exec, cond_wrap, elab_text;
     destruct (ib0 || ic0), (ib1 || ic1); vm_compute; reflexivity.
 Qed.
 
 (* ------------------------------------------------------------------ Ternary.il_exec, MemLoad.il_exec *)
 Definition G3 (a b c : pure) : denv := [("$0", BPure a); ("$1", BPure b); ("$2", BPure c)].
-Theorem ternary_text_ok : forall c a b ib0 ic0 ib1 ic1 op tself t0 t1,
-  match ternary_text op tself t0 t1 ib0 ic0 ib1 ic1 with Some s => elab (G3 c a b) noparam s | None => None end
+Theorem ternary_text_ok : forall c a b ib0 ic0 ib1 ic1 il0 v0 op tself t0 t1,
+  match ternary_text op tself t0 t1 ib0 ic0 ib1 ic1 il0 v0 with Some s => elab (G3 c a b) noparam s | None => None end
   = Some (PIte (cond_wrap (ib0 || ic0) c) a b).
 Proof. intros. unfold ternary_text, cond_wrap. destruct (ib0 || ic0); vm_compute; reflexivity. Qed.
-Theorem memload_text_ok : forall a b tself op t0 t1 ib0 ic0 ib1 ic1,
-  elab_text a b (memload_text op tself t0 t1 ib0 ic0 ib1 ic1) = Some (PLoad (vt_w tself) a).
+Theorem memload_text_ok : forall a b tself op t0 t1 ib0 ic0 ib1 ic1 il0 v0,
+  elab_text a b (memload_text op tself t0 t1 ib0 ic0 ib1 ic1 il0 v0) = Some (PLoad (vt_w tself) a).
 Proof. intros. unfold memload_text, elab_text. destruct (vt_w tself); vm_compute; reflexivity. Qed.
 
 (* ------------------------------------------------------------------ the Effect classes' il_write *)
@@ -99,24 +99,24 @@ Proof. intros. unfold memload_text, elab_text. destruct (vt_w tself); vm_compute
    ERepeat (cond_of c) body, ESeq (ESetL "jump_flag" true) (ESetL "jump_target" t), EStore a v, ENop, EEmpty; cond_of = cond_wrap (is_boolop c)) *)
 Definition elab_eff_text (G : denv) (t : option sexp) : option effect :=
   match t with Some s => elab_eff G noparam s | None => None end.
-Theorem branch_text_ok : forall c t f ib0 ic0 ib1 ic1 op tself t0 t1,
-  elab_eff_text [("$0", BPure c); ("$1", BEff t); ("$2", BEff f)] (branch_text op tself t0 t1 ib0 ic0 ib1 ic1)
+Theorem branch_text_ok : forall c t f ib0 ic0 ib1 ic1 il0 v0 op tself t0 t1,
+  elab_eff_text [("$0", BPure c); ("$1", BEff t); ("$2", BEff f)] (branch_text op tself t0 t1 ib0 ic0 ib1 ic1 il0 v0)
   = Some (EBranch (cond_wrap (ib0 || ic0) c) t f).
 Proof. intros. unfold branch_text, cond_wrap, elab_eff_text. destruct (ib0 || ic0); vm_compute; reflexivity. Qed.
-Theorem forloop_text_ok : forall c body ib0 ic0 ib1 ic1 op tself t0 t1,
-  elab_eff_text [("$0", BPure c); ("$1", BEff body)] (forloop_text op tself t0 t1 ib0 ic0 ib1 ic1)
+Theorem forloop_text_ok : forall c body ib0 ic0 ib1 ic1 il0 v0 op tself t0 t1,
+  elab_eff_text [("$0", BPure c); ("$1", BEff body)] (forloop_text op tself t0 t1 ib0 ic0 ib1 ic1 il0 v0)
   = Some (ERepeat (cond_wrap (ib0 || ic0) c) body).
 Proof. intros. unfold forloop_text, cond_wrap, elab_eff_text. destruct (ib0 || ic0); vm_compute; reflexivity. Qed.
-Theorem jump_text_ok : forall t op tself t0 t1 ib0 ic0 ib1 ic1,
-  elab_eff_text [("$0", BPure t)] (jump_text op tself t0 t1 ib0 ic0 ib1 ic1)
+Theorem jump_text_ok : forall t op tself t0 t1 ib0 ic0 ib1 ic1 il0 v0,
+  elab_eff_text [("$0", BPure t)] (jump_text op tself t0 t1 ib0 ic0 ib1 ic1 il0 v0)
   = Some (ESeq (ESetL "jump_flag" (PBool true)) (ESetL "jump_target" t)).
 Proof. intros. vm_compute. reflexivity. Qed.
-Theorem memstore_text_ok : forall a v op tself t0 t1 ib0 ic0 ib1 ic1,
-  elab_eff_text [("$0", BPure a); ("$1", BPure v)] (memstore_text op tself t0 t1 ib0 ic0 ib1 ic1) = Some (EStore a v).
+Theorem memstore_text_ok : forall a v op tself t0 t1 ib0 ic0 ib1 ic1 il0 v0,
+  elab_eff_text [("$0", BPure a); ("$1", BPure v)] (memstore_text op tself t0 t1 ib0 ic0 ib1 ic1 il0 v0) = Some (EStore a v).
 Proof. intros. vm_compute. reflexivity. Qed.
-Theorem nop_empty_text_ok : forall op tself t0 t1 ib0 ic0 ib1 ic1,
-  elab_eff_text [] (nop_text op tself t0 t1 ib0 ic0 ib1 ic1) = Some ENop /\
-  elab_eff_text [] (empty_text op tself t0 t1 ib0 ic0 ib1 ic1) = Some EEmpty.
+Theorem nop_empty_text_ok : forall op tself t0 t1 ib0 ic0 ib1 ic1 il0 v0,
+  elab_eff_text [] (nop_text op tself t0 t1 ib0 ic0 ib1 ic1 il0 v0) = Some ENop /\
+  elab_eff_text [] (empty_text op tself t0 t1 ib0 ic0 ib1 ic1 il0 v0) = Some EEmpty.
 Proof. intros. split; vm_compute; reflexivity. Qed.
 
 (* ------------------------------------------------------------------ the value-type helpers, on their whole domains *)
